@@ -19,6 +19,7 @@ import hashlib
 import os
 
 _INV = None
+PARAMS = {}  # qualname -> positional parameter names of the inventory
 
 
 def body_digest(fn):
@@ -70,6 +71,8 @@ def inventory():
                 parts = line.split()
                 if parts:
                     funcs[parts[0]] = parts[1] if len(parts) > 1 else ''
+                    if len(parts) > 2:
+                        PARAMS[parts[0]] = parts[2].split(',')
         _INV = (attrs, funcs)
     return _INV
 
@@ -180,10 +183,56 @@ def deconstant(trees):
     return notes
 
 
+def dereorder(trees, notes):
+    """A private function whose positional parameters (none of them defaulted) are a permutation of the inventory's is
+    put back into the inventory's order, together with the all-positional calls of it (callee identified by its name,
+    which must be unique in the package)."""
+    defs = {}
+    for mod, tree in trees.items():
+        for owner in [tree] + [n for n in ast.walk(tree) if isinstance(n, ast.ClassDef)]:
+            for fn in owner.body:
+                if isinstance(fn, ast.FunctionDef):
+                    defs.setdefault(fn.name, []).append((mod if owner is tree else f'{mod}.{owner.name}', fn, owner is not tree))
+    owners = {}
+    for mod, tree in trees.items():
+        for cls in [n for n in ast.walk(tree) if isinstance(n, ast.ClassDef)]:
+            owners[f'{mod}.{cls.name}'] = cls
+    for name, lst in defs.items():
+        if not name.startswith('_') or name.startswith('__'):
+            continue
+        for scope, fn, is_method in lst:
+            inv = PARAMS.get(f'{scope}.{name}')
+            a = fn.args
+            if inv is None or a.defaults or a.vararg or a.kwarg or a.kwonlyargs or a.posonlyargs:
+                continue
+            cur = [x.arg for x in a.args]
+            if cur == inv or sorted(cur) != sorted(inv) or len(set(cur)) != len(cur) or (is_method and cur[0] != inv[0]):
+                continue
+            if not is_method and len(lst) != 1:
+                continue
+            perm = [cur.index(p) for p in inv]          # new position i takes current parameter perm[i]
+            a.args = [a.args[k] for k in perm]
+            off = 1 if is_method else 0
+            n_call = len(cur) - off
+            # call sites: self.NAME(..) inside the owning class; any receiver / the bare name when the name is unique
+            scopes = list(trees.values()) if len(lst) == 1 else [owners[scope]]
+            for sc in scopes:
+                for c in ast.walk(sc):
+                    if not isinstance(c, ast.Call) or c.keywords or len(c.args) != n_call or any(isinstance(x, ast.Starred) for x in c.args):
+                        continue
+                    f = c.func
+                    if is_method and isinstance(f, ast.Attribute) and f.attr == name and (len(lst) == 1 or (isinstance(f.value, ast.Name) and f.value.id == 'self')):
+                        c.args = [c.args[k - off] for k in perm[off:]]
+                    elif not is_method and isinstance(f, ast.Name) and f.id == name:
+                        c.args = [c.args[k] for k in perm]
+            notes.append(f'{scope}.{name}: parameters put back into the inventory order {inv}')
+
+
 def derename(trees):
     """Rewrite trees in place; returns notes."""
     inv_attrs, inv_funcs = inventory()
     notes = deconstant(trees)
+    dereorder(trees, notes)
     if not inv_attrs and not inv_funcs:
         return notes
     all_known_attr_names = {a for d in inv_attrs.values() for a in d}
